@@ -693,6 +693,9 @@ def gen_c18(tier, rng):
         cases.append(case('c15d', s))
     for _ in range(5000):
         cases.append(case('c15d', random_utf8_path(rng, rng.random() < 0.5)))
+    for win in (False, True):
+        for s in boundary_paths(win)[::(3 if tier == 'quick' else 1)]:
+            cases.append(case('c15d', s))
         cases.append(case('c15d', random_bytes(rng, 8)))
     for c in cases:
         hist(dist['ops'], c.split('\t')[0])
@@ -713,6 +716,8 @@ def gen_c19(tier, rng):
     for win in (False, True):
         for s in boundary_paths(win)[::(3 if tier == 'quick' else 1)]:
             cases.append(case('c19', s))
+        for s in boundary_paths(win)[1::(3 if tier == 'quick' else 1)]:
+            cases.append(case('c15d', s))          # the same bytes through every construction route of the typed paths
     # pairs: equality / ordering / hash-equality are the same through every owned, boxed, shared, Cow, typed and mixed form
     pc, _ = gen_pairs('c19p', scale=0.25, fam_filter=lambda f: f in ('u', 'w'))(tier, rng)
     cases += pc
@@ -741,7 +746,7 @@ def with_cons(g, encs=('u', 'w'), same=False):
 
 
 GEN_NOTE = ('bounded-exhaustive strings over the bytes the parsers branch on (Unix {/ . a b NUL 0xFF}, Windows {\\ / . : ? a C} '
-            'and 40 prefix seeds x suffixes over {\\ / . a}), structured random paths, a malformed stream, and UTF-8 inputs with 2-, 3- '
+            'and 45 prefix seeds x suffixes over {\\ / . a}), structured random paths, a malformed stream, and UTF-8 inputs with 2-, 3- '
             'and 4-byte characters; the byte family always, the UTF-8 / runtime-typed families on a share of the cases')
 
 def P(gen, level_text, level_note, rule=None, **kw):
@@ -769,7 +774,7 @@ PROPS = {
     },
     'C02': P(with_cons(gen_c02, encs=('w',)), 'Proved in Coq for all byte strings (Props/C02.v): the model prefix parser equals the declarative six-kind grammar, the component list equals the specification wspec, every prefix/root/absoluteness query equals its definition over that decomposition, drive letters are upper-case ASCII, at most one prefix and only first. The same specification is evaluated on the implementation output of every explored case (oracle_c02: components from both ends, 13 queries, try_from, prefix length/verbatim flag).', NOTE_CORR),
     'C03': P(gen_c03, 'Double-ended coherence: interleaving theorem over the generic core parser (CoreSched.sched_spec) instantiated for Unix and for the Windows body; back = reverse of front, termination, permanent exhaustion, prefix only first; conservation at the level of the split (C03_conservation). The slice sentence is a theorem for the generic core and any schedule (C03_slices, C03_slices_ordered, C03_unix_slices): every normal name is the slice of the original input at the reported offset, the windows of unconsumed input are nested and each slice lies inside the window before its step and outside the one after it, so slices are pairwise disjoint, front slices ascend and back slices descend; the offsets are those the model prints (C03_unix_reported_offsets), compared with the implementation on every case. The Windows instantiation of the slice theorem is not stated (C03_windows_offsets_partial; oracle_c03 on every explored case).', NOTE_CORR),
-    'C04': P(with_cons(gen_pairs('c04')), 'Proved in Coq for all inputs (Props/C04.v): a checked push either fails and leaves the base byte-for-byte unchanged or succeeds with exactly the unchecked join, decided by the scan over the specification components of p (both encodings); the scan succeeds iff no prefix, no root, no normal name with a forbidden byte, and no .. outnumbering the normal names before it (Unix and Windows), otherwise it names the first offending component (Unix); containment: on success the result components begin with exactly the base components followed by p minus a leading . -- at Unix for every base, at Windows for every base without UNC/verbatim/device prefix (prefix-free not starting with two separators, or drive prefix X:). The remaining Windows bases are decided by oracle_c04 / oracle_c10 on every explored pair; base of exactly two separators = known finding D10.', NOTE_CORR),
+    'C04': P(with_cons(gen_pairs('c04')), 'Proved in Coq for all inputs (Props/C04.v): a checked push either fails and leaves the base byte-for-byte unchanged or succeeds with exactly the unchecked join, decided by the scan over the specification components of p (both encodings); the scan succeeds iff no prefix, no root, no normal name with a forbidden byte, and no .. outnumbering the normal names before it (Unix and Windows), otherwise it names the first offending component (Unix); containment: on success the result components begin with exactly the base components followed by p minus a leading . -- at Unix for every base, at Windows for every base without UNC/verbatim/device prefix (prefix-free not starting with two separators, or drive prefix X:). For the remaining Windows bases the containment sentence is stated over the specification by the oracle itself (Oracles.c04_contains) and evaluated on every explored pair; it fails on the unchanged crate only in two recorded input classes, the base of exactly two separators (D10) and the verbatim prefix named UNC (D17), each with a refuted-witness lemma.', NOTE_CORR),
     'C05': P(with_cons(gen_pairs('c05')), 'Proved in Coq for all byte strings, both encodings (Props/C05.v): equality iff equal specification component sequences (Windows prefixes by parsed kind), the order is the lexicographic lift of the component order and is total (antisymmetric, transitive, Equal iff equal), the hasher feed is the derived hash of the parsed prefix kind followed by the bytes of every non-root component and their total length, hence equal paths feed identical data (C05_unix_eq_same_hash, C05_windows_eq_same_hash, C05_windows_hash_feed; the separator scan is proved once for any separator test and normalisation flag). All closed under the global context; the same statements are evaluated on the implementation output (recorded Hasher calls) of every explored pair by oracle_c05.', NOTE_CORR),
     'C06': P(gen_c06, 'Proved in Coq for all byte strings (Props/C06.v): the Gallina transcription of std::path (Components state machine, as_path trimming, parent, file_name, file_stem, extension, starts_with, ends_with, strip_prefix, eq, cmp, ancestors) and the typed-path model give the same answer: components from both ends, eq, cmp, has_root, file_name/stem/extension byte for byte, starts_with, ends_with; parent and ancestors identical as byte strings (C06_parent_bytes: s_parent l = u_parent l for all l; the next_back + as_path trimming of std computes the skip-back-keep-the-lead function of the model; C06_ancestors_bytes); strip_prefix succeeds for both or neither with equal remainders as paths (bytes differ exactly in known class D8, refuted-witness lemma). The transcription is diffed against the real std::path on every explored case (pair.c06).', NOTE_CORR),
     'C07': P(with_cons(gen_c07, encs=('u',)), 'Proved in Coq (Props/C07.v): for EVERY history of push / pop / set_file_name / clear / extend / collect / join / with_file_name and every pair of component-equal start buffers, the typed-path buffer and the std::path::PathBuf transcription are component-equal after every step and every boolean result agrees (C07_history, by induction over the history); a non-empty push is the same byte function on both sides, also when std carries the extra trailing / left by an empty push (relation Rb). Rb is kept by ALL eight operations over every history (C07_history_bytes; pop and set_file_name by the byte identity of the two parents, C07_pop_keeps_R, C07_set_file_name_keeps_R), so after any history a push or join of a non-empty path leaves byte-identical buffers (C07_history_then_push_bytes). Every explored history is also run on the real std::path::PathBuf (pair.hist: booleans, component equality, byte equality after non-empty pushes).', NOTE_CORR),
